@@ -9,7 +9,7 @@ from fractions import Fraction
 from harness import common, oplab
 
 ID = "C09"
-LEAN_MODULES = ["PptxModel.Props.C09", "PptxModel.Props.C09C", "PptxModel.Props.C09F", "PptxModel.Props.C09A", "PptxModel.Props.C09S", "PptxModel.Props.C09T"]
+LEAN_MODULES = ["PptxModel.Props.C09", "PptxModel.Props.C09C", "PptxModel.Props.C09F", "PptxModel.Props.C09A", "PptxModel.Props.C09S", "PptxModel.Props.C09T", "PptxModel.Props.C09L"]
 RULE = (
     "the property table of harness/oplab.py (~110 read/write properties of Presentation, slides, shapes, pictures, "
     "connectors, text frames, paragraphs, runs, fonts, lines, colours, gradient / pattern fills, tables, cells, rows, "
@@ -21,7 +21,7 @@ RULE = (
     "readings again after save + re-open.  Stored integers of the non-identity conversions (font size, rotation, crop, "
     "adjustments, brightness, gradient angle, stop position, line spacing) and assignment histories on attribute stores "
     "(a:rPr, a:bodyPr, a:tcPr) are compared exactly with the Lean model.  ColorFormat, FillFormat and shape.adjustments are compared "
-    "(and paragraph spacing: line_spacing / space_before / space_after, Model/Spacing; TextFrame.auto_size, Model/Autofit) "
+    "(and paragraph spacing: line_spacing / space_before / space_after, Model/Spacing; TextFrame.auto_size, Model/Autofit; LineFormat.width / .dash_style, Model/LineFmt) "
     "with their state-machine models (Model/Color, Model/Fill, Model/Adjust) after every call of seeded histories from start states "
     "the library never writes, each call through a proxy held from the start or through a new one (fonts, fills, lines, gradient "
     "stops, pattern colours, table cells, chart series, slide backgrounds; the owner's .color shortcut; several proxies of one "
@@ -1381,6 +1381,111 @@ def autofits(ctx):
             ctx.disagree("autofit", dict(meta, line=line), i, m)
 
 
+def line_formats(ctx):
+    """`LineFormat.width` / `.dash_style` against `Model/LineFmt` (`c09.line`): owners without a:ln, with @w, a:prstDash, a:custDash or
+    both dashes; seeded histories (widths incl. None, 0, both bounds and their neighbours; members, None, non-members and
+    DASH_STYLE_MIXED) through a held or a new LineFormat; verdict, a:ln as stored, both readings after EVERY assignment"""
+    from lxml import etree
+    from pptx import Presentation
+    from pptx.enum.dml import MSO_LINE_DASH_STYLE as M
+
+    rng = ctx.rng
+    A = oplab_ns()
+    members = [M.SOLID, M.SQUARE_DOT, M.ROUND_DOT, M.DASH, M.DASH_DOT, M.DASH_DOT_DOT, M.LONG_DASH, M.LONG_DASH_DOT]
+    toks = [M.to_xml(m) for m in members]
+    scripts = [("12700/3/1", ["w-1", "dx", "wn", "d5", "dn", "w25400"]), ("-", ["dn", "w-5", "dx", "w0", "d0"]), ("n/n/1", ["d7", "w20116800", "w20116801"])]
+    lines, impl, metas = [], [], []
+    for trial in range(30 if ctx.quick else 500):
+        prs = Presentation(); slide = prs.slides.add_slide(prs.slide_layouts[6])
+        if trial % 3 == 2:
+            slide.shapes.add_connector(1, 0, 0, 9999, 9999)
+        else:
+            slide.shapes.add_shape(1, 0, 0, 99999, 99999)
+        spPr = slide.shapes[0]._element.spPr
+        held = slide.shapes[0].line
+        if trial < len(scripts):
+            start, ops = scripts[trial]
+        else:
+            start = "-" if rng.randrange(4) == 0 else "%s/%s/%d" % (rng.choice(["n", "1", "12700", "20116800"]), rng.choice(["n"] + [str(k) for k in range(8)]), rng.randrange(2))
+            ops = []
+            for _ in range(rng.randint(1, 7)):
+                if rng.randrange(2):
+                    ops.append(rng.choice(["wn", "w0", "w1", "w12700", "w20116800", "w20116801", "w-1", "w%d" % rng.randint(0, 20116800)]))
+                else:
+                    ops.append(rng.choice(["dn", "dx"] + ["d%d" % k for k in range(8)] * 2))
+        for el in spPr.findall("{%s}ln" % A):
+            spPr.remove(el)
+        if start != "-":
+            w, pd, cd = start.split("/")
+            ln = spPr.get_or_add_ln()
+            if w != "n":
+                ln.set("w", w)
+            if pd != "n":
+                etree.SubElement(ln, "{%s}prstDash" % A).set("val", toks[int(pd)])
+            if cd == "1":
+                etree.SubElement(etree.SubElement(ln, "{%s}custDash" % A), "{%s}ds" % A).attrib.update({"d": "300000", "sp": "100000"})
+
+        def state(line=None):
+            lns = spPr.findall("{%s}ln" % A)
+            if not lns:
+                st = "-"
+            elif len(lns) > 1:
+                st = "several"
+            else:
+                pds = lns[0].findall("{%s}prstDash" % A); cds = lns[0].findall("{%s}custDash" % A)
+                st = "%s/%s/%d" % (lns[0].get("w") or "n", "n" if not pds else (str(toks.index(pds[0].get("val"))) if pds[0].get("val") in toks else "odd:%s" % pds[0].get("val")) if len(pds) == 1 else "several", len(cds))
+            ln_ = line or slide.shapes[0].line
+            d = ln_.dash_style
+            return st + "|%d,%s" % (int(ln_.width), "n" if d is None else str(members.index(d)))
+        outs = ["start|" + state()]
+        want = outs[0].split("|")[-1].split(",")
+        for done, op in enumerate(ops):
+            if op[0] == "w":
+                attr, val = "width", (None if op == "wn" else int(op[1:]))
+                dom = val is None or 0 <= val <= 20116800
+            else:
+                attr = "dash_style"
+                val = None if op == "dn" else rng.choice([99, "dash", M.DASH_STYLE_MIXED]) if op == "dx" else members[int(op[1:])]
+                dom = op != "dx"
+            target = held if rng.randrange(2) else slide.shapes[0].line
+            try:
+                setattr(target, attr, val)
+                outs.append("ok|" + state())
+                if not dom:
+                    ctx.fail("domain:line", f"line {start} after {ops[:done]}: {attr} = {val!r} is accepted", {"start": start, "ops": ops[:done + 1]})
+                elif attr == "width":
+                    want[0] = str(val or 0)
+                else:
+                    want[1] = "n" if val is None else op[1:]
+            except ValueError:
+                outs.append("V|" + state())
+                if outs[-1].split("|")[1] != outs[-2].split("|")[1]:
+                    ctx.fail("refused-but-changed:line", f"line (a:ln as @w/prstDash/custDash, - = none) {outs[-2].split('|')[1]}: {attr} = {val!r} is refused with ValueError and leaves "
+                             f"{outs[-1].split('|')[1]}", {"start": start, "ops": ops[:done + 1], "value": repr(val)})
+                if dom:
+                    ctx.fail("domain:line", f"line {start} after {ops[:done]}: {attr} = {val!r} is refused", {"start": start, "ops": ops[:done + 1]})
+            got = outs[-1].split("|")[-1].split(",")
+            got_held = state(held).split("|")[-1].split(",")
+            if got != want or got_held != want:
+                ctx.fail("readback:line", f"line (a:ln as @w/prstDash/custDash, - = none) {start}: after {ops[:done + 1]} (w = width, d = dash_style, n = None, x = no member) width, dash_style read {got} "
+                         f"through a new LineFormat, {got_held} through the held one; the last accepted values are {want}", {"start": start, "ops": ops[:done + 1]})
+                ops = ops[:done + 1]
+                break
+        line = "c09.line %s %s" % (start, ";".join(ops) or "!")
+        lines.append(line); impl.append(";".join(outs)); metas.append({"conv": "line", "start": start, "ops": ops})
+        ctx.case(key=line); ctx.count("line-model-histories")
+        if trial % 5 == 0:
+            b = io.BytesIO(); prs.save(b)
+            q = Presentation(io.BytesIO(b.getvalue())).slides[0].shapes[0].line
+            here = slide.shapes[0].line
+            if (q.width, q.dash_style) != (here.width, here.dash_style):
+                ctx.fail("reopen:line", f"line {start} after {ops}: width, dash_style read {(here.width, here.dash_style)}, after save and re-open {(q.width, q.dash_style)}", {"start": start, "ops": ops})
+    for line, i, m, meta in zip(lines, impl, ctx.driver.run(lines), metas):
+        ctx.traces += 1
+        if i != m:
+            ctx.disagree("line", dict(meta, line=line), i, m)
+
+
 _ELM_ATTRS = ("_element", "_xPr", "_xFill", "_rPr", "_r", "_p", "_pPr", "_txBody", "_tc", "_tr", "_gridCol", "_ln", "_ser", "_chartSpace", "_gs", "_tbl",
               "_pic", "_sp", "_cxnSp", "_graphicFrame", "_xAx", "_dLbls", "_legend", "_title", "_marker", "_parent", "_bodyPr", "_hlink", "_prstGeom")
 
@@ -1715,6 +1820,7 @@ def correspond(ctx):
     adjustment_proxies(ctx)
     spacings(ctx)
     autofits(ctx)
+    line_formats(ctx)
     held_proxies(ctx)
     rng = ctx.rng
     reps = 6 if ctx.quick else 20
